@@ -6,6 +6,7 @@ import dataclasses
 import difflib
 import functools
 import heapq
+import keyword
 import re
 import textwrap
 from types import MappingProxyType
@@ -628,6 +629,18 @@ class _Transaction:
     group_name: str
 
 
+def _has_call_parentheses(source: str, generator_range: core.Range) -> bool:
+    """A generator expression that is the only argument of a call has no parentheses of its
+    own, the range of the node then starts and ends with the parentheses of the call."""
+    code = source[generator_range.start : generator_range.end]
+    if not (code.startswith("(") and code.endswith(")")):
+        return False
+
+    same_line = source[: generator_range.start].rpartition("\n")[2]
+    preceding = re.findall(r"[\w\)\]]+$", same_line.rstrip())
+    return bool(preceding) and not keyword.iskeyword(preceding[0])
+
+
 def _schedule_rewrites(
     source: str, funcs: Iterable[Tuple[Callable, Sequence, Mapping]]
 ) -> Sequence[Tuple[Any, Callable]]:
@@ -644,7 +657,11 @@ def _schedule_rewrites(
             raise ValueError(f"Invalid tuple: {tup!r}")
 
         if isinstance(before, ast.AST):
+            shares_parentheses = isinstance(before, ast.GeneratorExp)
             before = core.get_charnos(before, source)
+            if shares_parentheses and _has_call_parentheses(source, before):
+                # sum(x for x in y): the parentheses belong to the call, they must stay
+                before = core.Range(before.start + 1, before.end - 1)
         elif before is None:
             before = core.get_charnos(after, source)
 
@@ -891,6 +908,13 @@ def find_replace(
         range_start = min(r[0] for r in ranges)
         range_end = max(r[1] for r in ranges)
         replacement_range = core.Range(range_start, range_end)
+        if (
+            len(matches) == 1
+            and isinstance(matches[0][0], ast.GeneratorExp)
+            and _has_call_parentheses(source, replacement_range)
+        ):
+            # sum(x for x in y): the parentheses belong to the call, they must stay
+            replacement_range = core.Range(range_start + 1, range_end - 1)
 
         template_replacement = core.format_template(replace, combined_match, **callables)
 
